@@ -52,7 +52,6 @@ DRIVER = "vf.impl.c03_driver"
 KINDS = ["list", "tuple", "numpy", "from_arrays"]
 EDGE_DEP = ("edge", "cell_to_edge", "edge_id", "is_edge_on_border", "is_edge_on_border_v", "boundary_edges",
             "interior_edges", "enable_bc")
-KNOWN_KEY = "edge-nonmanifold/sort-KeyError"
 
 
 def gen(ctx):
@@ -123,12 +122,6 @@ def gen_script(rng, mesh, n_ops, manifold, sort):
         ops.insert(rng.randrange(len(ops) + 1), ["enable_bc"])
     if rng.random() < 0.75:
         ops.insert(rng.randrange(len(ops) + 1), ["extract"])
-    if sort and not manifold:
-        # the first edge-dependent call raises and leaves half-built tables behind: keep one such call, last
-        dep = [o for o in ops if o[0] in EDGE_DEP]
-        ops = [o for o in ops if o[0] not in EDGE_DEP]
-        if dep:
-            ops.append(rng.choice(dep))
     return ops
 
 
